@@ -1,2 +1,5 @@
-import Blackbird
-#print axioms Blackbird.dictGet
+import Blackbird.Props.C10
+#print axioms Blackbird.C10_listener_total
+#print axioms Blackbird.C10_invariant_needed
+#print axioms Blackbird.C10_column_one_based
+#print axioms Blackbird.C10_printed_scripts_pass
